@@ -244,6 +244,15 @@ def run_check(pid, tier):
                 known_hit.setdefault(f["key"], (f, 0))
                 known_hit[f["key"]] = (f, known_hit[f["key"]][1] + v["n"])
             else:
+                # same class as a listed finding, but outside its recorded range or with more cases
+                for kf in findings:
+                    if kf.get("status") == "known" and kf.get("property") == pid and kf.get("key") == v["key"]:
+                        nmax = kf.get("n")
+                        if isinstance(nmax, dict):
+                            nmax = nmax.get(tier)
+                        v["exceeds_listed"] = "class is a listed finding (%s cases in [%s, %s]) but now has %d cases in [%s, %s]: more than the listed defect fails" % (
+                            nmax, kf.get("lo"), kf.get("hi"), v["n"], v["lo"], v["hi"])
+                        break
                 unlisted.append(v)
         # worker crashes are violations of their own (the slice is replayable)
         for (pname, w, why, cmd) in crashes:
@@ -269,6 +278,8 @@ def run_check(pid, tier):
                 f.write("\n")
             print("VIOLATION property=%s replay=%s" % (pid, os.path.relpath(fn, VERIF)))
             print("  class: %s  cases: %d  first: %s" % (v["key"], v["n"], v["detail"]))
+            if v.get("exceeds_listed"):
+                print("  note: %s" % v["exceeds_listed"])
             if v.get("cmd"):
                 print("  cmd: %s" % v["cmd"])
             rc = 1
